@@ -251,6 +251,9 @@ func (c *Ctx) runLoop() *runLoop {
 		}
 	}
 	rl.findK()
+	for _, s := range rl.S {
+		registerControlValue(s.val, s.call)
+	}
 	runLoopCache[c] = rl
 	return rl
 }
@@ -350,23 +353,7 @@ func (rl *runLoop) isTaskName(v ssa.Value) bool {
 	if len(os) == 0 {
 		return false
 	}
-	base := func(x ssa.Value) ssa.Value {
-		for {
-			switch y := x.(type) {
-			case *ssa.FieldAddr:
-				x = y.X
-			case *ssa.Field:
-				x = y.X
-			case *ssa.UnOp:
-				if y.Op != token.MUL {
-					return x
-				}
-				x = y.X
-			default:
-				return x
-			}
-		}
-	}
+	base := structRoot
 	want := base(rl.recv)
 	for _, o := range os {
 		ok := false
@@ -761,7 +748,7 @@ func (rl *runLoop) invalidationBeforeX(assumeForce *bool) invalidation {
 		return true
 	}
 	start := rl.reg.entry
-	if dfs(start, false, false, newPathState(), nil) {
+	if dfs(start, false, false, newPathStateFor(rl.fn), nil) {
 		if len(s0) == 0 {
 			return invalidation{false, "no cache update with a constant value (or delete) for the iterated task before the commands run", nil, nil}
 		}
@@ -803,10 +790,10 @@ type cp3Result struct {
 // task's new digest is not both recorded (S with an H-derived value, in the same iteration) and then persisted (D).
 func (rl *runLoop) successPersisted(assumeForce *bool) cp3Result {
 	c := rl.c
-	isSH := map[ssa.Instruction]bool{}
+	sOf := map[ssa.Instruction]sEvent{}
 	for _, s := range rl.S {
-		if rl.hDerived(s.val) != nil && rl.isTaskName(s.key) {
-			isSH[s.call] = true
+		if rl.sIsH(s) && rl.isTaskName(s.key) {
+			sOf[s.call] = s
 		}
 	}
 	isD := map[ssa.Instruction]bool{}
@@ -815,8 +802,8 @@ func (rl *runLoop) successPersisted(assumeForce *bool) cp3Result {
 	}
 	// an S(H) that dominates X in the same iteration counts as already seen (record-then-run shape)
 	initS := false
-	for s := range isSH {
-		if rl.inLoop(s) && before(s, rl.X) {
+	for call, s := range sOf {
+		if rl.inLoop(call) && before(call, rl.X) && rl.hDerivedAll(s.val) != nil {
 			initS = true
 		}
 	}
@@ -840,7 +827,7 @@ func (rl *runLoop) successPersisted(assumeForce *bool) cp3Result {
 		}
 		path = append(path, fmt.Sprintf("block %d (%s)", b.Index, c.bpos(b)))
 		for _, in := range b.Instrs[from:] {
-			if isSH[in] && !cross {
+			if se, ok := sOf[in]; ok && !cross && rl.hDerivedAll(ps.resolve(se.val)) != nil {
 				s = true
 			}
 			if isD[in] && s {
@@ -896,7 +883,7 @@ func (rl *runLoop) successPersisted(assumeForce *bool) cp3Result {
 			idx = i + 1
 		}
 	}
-	if dfs(rl.X.Block(), idx, initS, false, newPathState(), nil) {
+	if dfs(rl.X.Block(), idx, initS, false, newPathStateFor(rl.fn), nil) {
 		return cp3Result{ok: true}
 	}
 	return cp3Result{false, bad, why}
@@ -920,6 +907,15 @@ func condKey(cond ssa.Value, pol bool) (string, bool) {
 	switch x := cond.(type) {
 	case *ssa.Parameter:
 		return "param:" + x.Name(), pol
+	case *ssa.UnOp:
+		// a CLI option: the flags are set once before App.Run and never written afterwards
+		if x.Op == token.MUL {
+			if k := fieldKey(x.X); strings.HasPrefix(k, "cli/app.Options.") {
+				if b, ok := x.Type().Underlying().(*types.Basic); ok && b.Kind() == types.Bool {
+					return "opt:" + strings.TrimPrefix(k, "cli/app.Options."), pol
+				}
+			}
+		}
 	case *ssa.BinOp:
 		if x.Op == token.EQL || x.Op == token.NEQ {
 			a, b := x.X.Name(), x.Y.Name()
@@ -996,17 +992,28 @@ func ruleCP8(c *Ctx) *rule {
 	rl.describe(r)
 	n := 0
 	for _, s := range rl.S {
-		if rl.hDerived(s.val) == nil {
+		if !rl.sIsH(s) {
 			continue
 		}
 		n++
 		key := fmt.Sprintf("%s S(H)#%d", fname(rl.fn), n)
-		// shape 1: S after X, guarded by Ok() of X's own result
-		guarded := false
-		if before(rl.X, s.call) {
-			for _, g := range rl.fi.necessaryGuards(s.call.Block()) {
-				if _, ok := rl.okTest(g.cond); ok && g.pol {
-					guarded = true
+		// shape 1: S after X; every way an H-derived value reaches it is guarded by Ok() of X's own result
+		guarded := before(rl.X, s.call)
+		var badGuards []guard
+		if guarded {
+			for _, cs := range rl.sCases(s) {
+				if rl.hDerivedAll(cs.val) == nil {
+					continue
+				}
+				okCase := false
+				for _, g := range cs.guards {
+					if _, ok := rl.okTest(g.cond); ok && g.pol {
+						okCase = true
+					}
+				}
+				if !okCase {
+					guarded = false
+					badGuards = cs.guards
 				}
 			}
 		}
@@ -1041,7 +1048,10 @@ func ruleCP8(c *Ctx) *rule {
 			if detail == "" {
 				detail = "no Ok() guard on the update and none on the persists that follow"
 			}
-			r.bad(key, c.ipos(s.call), "an H-derived digest is recorded without the necessary guard 'the commands succeeded': "+detail, describeGuards(c, rl.fi.necessaryGuards(s.call.Block()))...)
+			if badGuards == nil {
+				badGuards = rl.fi.necessaryGuards(s.call.Block())
+			}
+			r.bad(key, c.ipos(s.call), "an H-derived digest is recorded without the necessary guard 'the commands succeeded': "+detail, describeGuards(c, badGuards)...)
 		}
 	}
 	if n == 0 {
@@ -1082,18 +1092,23 @@ func ruleCP5(c *Ctx) *rule {
 	allS := true
 	nS := 0
 	for _, s := range rl.S {
-		if rl.hDerived(s.val) == nil {
+		if !rl.sIsH(s) {
 			continue
 		}
 		nS++
-		g := false
-		for _, gd := range rl.guardsThroughFlags(s.call.Block()) {
-			if emptyWhenTrue, ok := rl.lenTest(gd.cond); ok && emptyWhenTrue != gd.pol {
-				g = true
+		for _, cs := range rl.sCases(s) {
+			if rl.hDerivedAll(cs.val) == nil {
+				continue
 			}
-		}
-		if !g {
-			allS = false
+			g := false
+			for _, gd := range append(rl.guardsThroughFlags(s.call.Block()), cs.guards...) {
+				if emptyWhenTrue, ok := rl.lenTest(gd.cond); ok && emptyWhenTrue != gd.pol {
+					g = true
+				}
+			}
+			if !g {
+				allS = false
+			}
 		}
 	}
 	for i, k := range rl.K {
@@ -1201,8 +1216,14 @@ func ruleCP2(c *Ctx) *rule {
 		events = append(events, event{fmt.Sprintf("report skipped (K#%d)", i+1), nil, k.at, k.guards})
 	}
 	for i, s := range rl.S {
-		if rl.hDerived(s.val) != nil {
-			events = append(events, event{fmt.Sprintf("record digest (S(H)#%d)", i+1), s.call, s.call.Block(), nil})
+		if rl.sIsH(s) {
+			var extra []guard
+			for _, cs := range rl.sCases(s) {
+				if rl.hDerivedAll(cs.val) != nil {
+					extra = append(extra, cs.guards...)
+				}
+			}
+			events = append(events, event{fmt.Sprintf("record digest (S(H)#%d)", i+1), s.call, s.call.Block(), extra})
 		}
 	}
 	for i, d := range rl.D {
@@ -1438,23 +1459,7 @@ func (rl *runLoop) baseIsIterated(v ssa.Value) bool {
 	default:
 		return false
 	}
-	strip := func(x ssa.Value) ssa.Value {
-		for {
-			switch y := x.(type) {
-			case *ssa.UnOp:
-				if y.Op != token.MUL {
-					return x
-				}
-				x = y.X
-			case *ssa.FieldAddr:
-				x = y.X
-			case *ssa.Field:
-				x = y.X
-			default:
-				return x
-			}
-		}
-	}
+	strip := structRoot
 	a, b := strip(x), strip(rl.recv)
 	if a == b {
 		return true
@@ -1780,7 +1785,7 @@ func cacheProperties() []*propertySpec {
 func (rl *runLoop) restores() []sEvent {
 	var out []sEvent
 	for _, s := range rl.S {
-		if rl.gDerived(s.val) != nil && rl.inLoop(s.call) && before(rl.X, s.call) {
+		if rl.sIsG(s) && rl.inLoop(s.call) && before(rl.X, s.call) {
 			out = append(out, s)
 		}
 	}
@@ -1801,16 +1806,27 @@ func ruleCP10(c *Ctx) *rule {
 	}
 	for i, s := range rs {
 		key := fmt.Sprintf("%s restore#%d", fname(rl.fn), i+1)
-		guarded := false
-		for _, g := range rl.fi.necessaryGuards(s.call.Block()) {
-			if own, ok := rl.okTest(g.cond); ok && own && !g.pol {
-				guarded = true
+		guarded := true
+		var badGuards []guard
+		for _, cs := range rl.sCases(s) {
+			if rl.gDerived(cs.val) == nil {
+				continue
+			}
+			okCase := false
+			for _, g := range cs.guards {
+				if own, ok := rl.okTest(g.cond); ok && own && !g.pol {
+					okCase = true
+				}
+			}
+			if !okCase {
+				guarded = false
+				badGuards = cs.guards
 			}
 		}
 		if guarded {
 			r.ok(key, c.ipos(s.call), "only on the 'a command failed' edge of this task's own result")
 		} else {
-			r.bad(key, c.ipos(s.call), "the previous digest can be written back although the commands succeeded (the guard is not 'Ok() == false' of this task's own result)", describeGuards(c, rl.fi.necessaryGuards(s.call.Block()))...)
+			r.bad(key, c.ipos(s.call), "the previous digest can be written back although the commands succeeded (the guard is not 'Ok() == false' of this task's own result)", describeGuards(c, badGuards)...)
 		}
 	}
 	return r
@@ -1828,10 +1844,10 @@ func ruleCP11(c *Ctx) *rule {
 		r.ok(key, c.ipos(rl.X), "the recorded digest is not invalidated before the commands (nothing to restore)")
 		return r
 	}
-	isR := map[ssa.Instruction]bool{}
+	rOf := map[ssa.Instruction]sEvent{}
 	for _, s := range rl.restores() {
 		if rl.isTaskName(s.key) {
-			isR[s.call] = true
+			rOf[s.call] = s
 		}
 	}
 	isD := map[ssa.Instruction]bool{}
@@ -1860,14 +1876,14 @@ func ruleCP11(c *Ctx) *rule {
 			if !failed {
 				continue
 			}
-			if isR[in] {
+			if se, ok := rOf[in]; ok && rl.gDerived(ps.resolve(se.val)) != nil {
 				s = true
 			}
 			if isD[in] && s {
 				return
 			}
 			if ret, ok := in.(*ssa.Return); ok {
-				if ev := returnedErr(ret); ev != nil && !mayBeNil(ps.resolve(ev), map[ssa.Value]bool{}) {
+				if ev := returnedErr(ret); ev != nil && !ps.mayBeNil(ev) {
 					return // an error ends the run: nothing more can be demanded
 				}
 				bad, badPath = "the run returns without restoring the previous digest", path
@@ -1908,7 +1924,7 @@ func ruleCP11(c *Ctx) *rule {
 			idx = i + 1
 		}
 	}
-	dfs(rl.X.Block(), idx, false, false, newPathState(), nil)
+	dfs(rl.X.Block(), idx, false, false, newPathStateFor(rl.fn), nil)
 	switch {
 	case starts == 0:
 		r.bad(key, c.ipos(rl.X), "the recorded digest is invalidated before the commands but the outcome of the commands (Ok()) is never tested: a failure can never restore it")
@@ -2198,4 +2214,98 @@ func (c *Ctx) allBindingsAre(p *ssa.Parameter, depth int, ok func(ssa.Value) boo
 		}
 	}
 	return ""
+}
+
+// sCase is one way a cache update can receive its value: the update's value operand, or — when the value is chosen by an
+// if/else chain that ends in a single update call — one operand of the merging phi together with the guards of its edge.
+type sCase struct {
+	val    ssa.Value
+	guards []guard
+}
+
+func (rl *runLoop) sCases(s sEvent) []sCase {
+	var out []sCase
+	seen := map[ssa.Value]bool{}
+	var walk func(v ssa.Value, gs []guard)
+	walk = func(v ssa.Value, gs []guard) {
+		if seen[v] {
+			return
+		}
+		seen[v] = true
+		phi, ok := v.(*ssa.Phi)
+		isHeader := false
+		if ok && rl.loop != nil && phi.Block() == rl.loop.header {
+			isHeader = true
+		}
+		if !ok || isHeader {
+			out = append(out, sCase{v, gs})
+			return
+		}
+		for i, e := range phi.Edges {
+			pred := phi.Block().Preds[i]
+			eg := rl.fi.guardsOfEdge(edge{pred, succIndex(pred, phi.Block())})
+			walk(e, append(append([]guard{}, gs...), eg...))
+		}
+	}
+	walk(s.val, rl.fi.necessaryGuards(s.call.Block()))
+	return out
+}
+
+// sIsH / sIsG: some way of reaching the update records an H-derived (G-derived) value.
+func (rl *runLoop) sIsH(s sEvent) bool {
+	for _, cs := range rl.sCases(s) {
+		if rl.hDerivedAll(cs.val) != nil {
+			return true
+		}
+	}
+	return false
+}
+
+func (rl *runLoop) sIsG(s sEvent) bool {
+	for _, cs := range rl.sCases(s) {
+		if rl.gDerived(cs.val) != nil {
+			return true
+		}
+	}
+	return false
+}
+
+// structRoot strips loads and field selections down to the storage a struct lives in, following whole-struct copies
+// (`copy := *p`, a by-value parameter of an inlined helper): two accesses with the same root read the same task.
+func structRoot(v ssa.Value) ssa.Value {
+	for i := 0; i < 32; i++ {
+		switch y := v.(type) {
+		case *ssa.FieldAddr:
+			v = y.X
+		case *ssa.Field:
+			v = y.X
+		case *ssa.UnOp:
+			if y.Op != token.MUL {
+				return v
+			}
+			v = y.X
+		case *ssa.Alloc:
+			var whole []ssa.Value
+			for _, ref := range valueReferrers(y) {
+				if st, ok := ref.(*ssa.Store); ok && st.Addr == ssa.Value(y) {
+					whole = append(whole, st.Val)
+				}
+			}
+			if len(whole) != 1 {
+				return v
+			}
+			src := whole[0]
+			if u, ok := src.(*ssa.UnOp); ok && u.Op == token.MUL {
+				v = u.X
+				continue
+			}
+			if _, ok := src.(*ssa.Parameter); ok {
+				return src
+			}
+			return v
+		default:
+			return v
+		}
+	}
+	return v
 }
